@@ -98,8 +98,21 @@ func VerifyFunc(p *Program, fc *FuncContract, opts VerifyOpts) (rep *FuncReport)
 			Goal: FalseT, Status: "failed", Output: "contract target function not found in /repo"})
 		return rep
 	}
+	// a trusted contract is assumed, not verified; but when it is placed under a no-panic property its body is still executed
+	// in panic mode and every no-panic obligation (and callee precondition) is generated - only the functional
+	// postconditions and the frame stay assumed
+	panicOnly := false
 	if fc.Trusted {
-		return rep
+		if opts.PanicMode {
+			for _, pp := range opts.PanicProps {
+				if hasProp(fc.Props, pp) {
+					panicOnly = true
+				}
+			}
+		}
+		if !panicOnly {
+			return rep
+		}
 	}
 	x := NewExec(p)
 	x.top, x.topKey, x.fc = fn, fc.Key(), fc
@@ -172,6 +185,7 @@ func VerifyFunc(p *Program, fc *FuncContract, opts VerifyOpts) (rep *FuncReport)
 		st.Assume(x.safeEvalBool(env, u, fc.Key()+" uses"))
 	}
 	x.pre = st.Clone()
+	x.frameAllows = x.modifiesLocs(env, fc)
 	// watch the ghost pre-state too
 	gn := sortedKeys(func() map[string]bool {
 		m := map[string]bool{}
@@ -253,6 +267,16 @@ func VerifyFunc(p *Program, fc *FuncContract, opts VerifyOpts) (rep *FuncReport)
 	for _, o := range x.obs {
 		o.Axioms = x.axioms
 		o.SpecDefs = x.specDefs
+	}
+	if panicOnly {
+		var kept []*Obligation
+		for _, o := range x.obs {
+			if o.Kind != "post" && o.Kind != "frame" {
+				kept = append(kept, o)
+			}
+		}
+		x.obs = kept
+		x.note("functional contract of " + fc.Key() + " is trusted (assumed); its body is checked for panics only")
 	}
 	rep.Obligations = x.obs
 	rep.Abstractions = sortedKeys(x.abstr)
